@@ -66,7 +66,7 @@ def malformed(ctx, binary, quick):
         raise vlib.Infra("request lattice not emitted")
     shapes.sort(key=lambda x: json.dumps(x, sort_keys=True))
     if quick:
-        shapes = [x for i, x in enumerate(shapes) if (i + ctx.seed) % 2 == 0]
+        shapes = [x for i, x in enumerate(shapes) if x.get("noopt") or (i + ctx.seed) % 2 == 0]   # option-less requests always
     ctx.cov["request_shapes_sent"] = len(shapes)
     ctx.cov["states"] += len(shapes)
     ctx.cov["transitions"] += len(shapes)
@@ -88,6 +88,8 @@ def malformed(ctx, binary, quick):
         sig = "%s/%s" % (rec["rpc"], rec["lop"] if rec["lop"] != "none" else (rec["w"] if rec["w"] != "none" else rec["res"]))
         if what == "server-process-crashed" and rec["lop"] not in ("none",) and rec["nval"] == 0:
             sig = "label-term-without-value"
+        if what == "server-process-crashed" and rec.get("noopt"):
+            sig = "%s-without-options" % rec["rpc"].lower()
         ctx.violation("%s/%s" % (what, sig), "%s: %s" % (what, (details[i] if i < len(details) else "")[:500]), {"request": rec})
 
 
